@@ -169,15 +169,26 @@ Print Assumptions C14_paci_tsci.
    without - payload header plus one byte (plus DONL); FU header plus one byte (plus DONL in a start
    fragment); PACI fields, the whole PHES and one byte; the aggregation header through the end of
    the second unit.  Every prefix shorter than that is refused with an error (never accepted, never
-   a panic); the payload itself is at least that long.  (Longer prefixes are themselves well-formed
-   payloads of the same form - a shorter NAL unit, fewer aggregated units - and C14_parse_forms
-   applies to them.) *)
+   a panic); the payload itself is at least that long.  A longer prefix of a single NAL unit packet, an
+   FU or a PACI packet is itself a well-formed payload of the same form (a shorter NAL unit) and
+   C14_parse_forms applies to it.  For an aggregation packet that is so only when the cut falls on the
+   boundary of a unit; every other strict prefix - a cut inside the third or a later unit - is refused
+   as well (C14_parse_truncated_aggregation; before the repair of D34 the unit that was cut short was
+   dropped silently). *)
 From RTP Require Import Proofs.C14_Trunc.
 
 Theorem C14_parse_truncated : forall with_donl f k, wf_form f -> 0 <= k < min_len with_donl f ->
   exists e, h265_unmarshal with_donl (Some (take k (encode with_donl f))) = Err e.
 Proof. exact parse_truncated. Qed.
 Print Assumptions C14_parse_truncated.
+
+Theorem C14_parse_truncated_aggregation : forall with_donl layer tid donl first others k,
+  wf_form (FAgg layer tid donl first others) ->
+  0 <= k < zlen (encode with_donl (FAgg layer tid donl first others)) ->
+  (forall m, k <> zlen (encode with_donl (FAgg layer tid donl first (firstn m others)))) ->
+  exists e, h265_unmarshal with_donl (Some (take k (encode with_donl (FAgg layer tid donl first others)))) = Err e.
+Proof. exact agg_trunc_strict. Qed.
+Print Assumptions C14_parse_truncated_aggregation.
 
 Theorem C14_min_len_le : forall with_donl f, wf_form f -> min_len with_donl f <= zlen (encode with_donl f).
 Proof. exact min_len_le. Qed.
@@ -189,6 +200,16 @@ Example C14_parse_truncated_nonvacuous :
   h265_unmarshal true (Some (take 13 (encode true f))) = Err EShort /\
   h265_unmarshal true (Some (take 14 (encode true f))) = Ok (PAgg (Some 513) [64; 1; 9] [(Some 7, [2; 1])]).
 Proof. repeat split; vm_compute; reflexivity. Qed.
+
+(* D34, repaired in /repo: three units 40 01 09 / 42 01 07 07 / 26 01 05 05 05; cut after 14 to 19 of the 20
+   bytes the packet used to be accepted as an aggregation of the first two units *)
+Example C14_truncated_aggregation_repaired :
+  let f := FAgg 0 1 0 [64; 1; 9] [(0, [66; 1; 7; 7]); (0, [38; 1; 5; 5; 5])] in
+  zlen (encode false f) = 20 /\
+  zlen (encode false (FAgg 0 1 0 [64; 1; 9] [(0, [66; 1; 7; 7])])) = 13 /\
+  h265_unmarshal false (Some (take 13 (encode false f))) = Ok (PAgg None [64; 1; 9] [(None, [66; 1; 7; 7])]) /\
+  Forall (fun k => h265_unmarshal false (Some (take k (encode false f))) = Err EShort) [14; 15; 16; 17; 18; 19].
+Proof. repeat split; try (vm_compute; reflexivity). repeat constructor; vm_compute; reflexivity. Qed.
 
 Example C14_parse_forms_nonvacuous :
   encode true (FAgg 1 2 513 [64; 1; 9] [(7, [2; 1]); (0, [66; 1; 5; 5])])
